@@ -48,6 +48,8 @@ FORMS = {
     "add_star": ("method", "function"),
     "add_cycle": ("method", "function"),
     "add_node": ("method",),
+    "clear": ("method",),
+    "clear_edges": ("method",),
 }
 
 
@@ -124,6 +126,8 @@ def rand_history(rng, nnodes, tmax, length, bulk=0.2, monotone=0.5):
             calls.append(rand_bulk(rng, nnodes, hi))
         elif rng.random() < 0.05:
             calls.append({"op": "add_node", "n": rng.randint(1, nnodes + 1), "a": rng.randint(0, 2)})
+        elif rng.random() < 0.02:
+            calls.append({"op": rng.choice(["clear", "clear_edges"])})
         else:
             calls.append(rand_add(rng, nnodes, hi))
     return calls
